@@ -336,6 +336,12 @@ func (s *Server) parseSearchScanBaseTokens(
 						err = errInvalidArgument("expression too long")
 						return
 					}
+					if exprNestingExceeds(expr, maxWhereExprDepth) {
+						// and takes quadratic time in the depth of the
+						// brackets, for every object, under the server lock
+						err = errInvalidArgument("expression nested too deep")
+						return
+					}
 					t.wheres = append(t.wheres, whereT{name: expr, expr: true})
 					continue
 				} else {
@@ -756,6 +762,36 @@ func (s *Server) parseSearchScanBaseTokens(
 
 // maxWhereExprLen bounds a WHERE expression (1 MiB).
 const maxWhereExprLen = 1 << 20
+
+// maxWhereExprDepth bounds the nesting of brackets in a WHERE expression.
+const maxWhereExprDepth = 256
+
+// exprNestingExceeds tells whether the brackets of an expression nest deeper
+// than max, not counting what is inside string literals.
+func exprNestingExceeds(expr string, max int) bool {
+	var depth int
+	for i := 0; i < len(expr); i++ {
+		switch expr[i] {
+		case '(', '[', '{':
+			depth++
+			if depth > max {
+				return true
+			}
+		case ')', ']', '}':
+			if depth > 0 {
+				depth--
+			}
+		case '"', '\'', '`':
+			q := expr[i]
+			for i++; i < len(expr) && expr[i] != q; i++ {
+				if expr[i] == '\\' && q != '`' {
+					i++
+				}
+			}
+		}
+	}
+	return false
+}
 
 func detectExprToken(vs []string) bool {
 	// Detect the kind of where, either:
